@@ -368,8 +368,15 @@ Fixpoint ack_list (s : sink) (l : list (N * N)) : sink :=
 (* wait_publish_response(id, ack, pkt, payload): inl c = Ok(rx), inr status = Err; [big]: the PUBLISH is
    larger than the maximum outbound packet size.  `Err(e) => Err(SendPacketError::Encode(e))`: nothing is
    registered -- no in-flight entry, the id is not reserved, the streaming state is not set *)
+(* Flags::STOPPED is set by clear_queues(), which the model runs exactly when the io leaves the open state
+   (do_close / do_force_close): stopped = the io is closing or closed.  check_stopped()? is the first statement of
+   wait_publish_response / wait_response: nothing is registered once the queues have been cleared -- also while a
+   graceful close is still in progress and is_closed() is false. *)
+Definition stopped (s : sink) : bool := negb (io s =? 0).
+
 Definition wait_publish_response (s : sink) (id ack rem tag : N) (big : bool) : sink * (nat + N) :=
-  if negb (srem s =? 0) then (s, inr ST_ENCODE)                        (* check_streaming: ExpectPayload *)
+  if stopped s then (s, inr ST_DISCONNECTED)                           (* check_stopped *)
+  else if negb (srem s =? 0) then (s, inr ST_ENCODE)                   (* check_streaming: ExpectPayload *)
   else if memN id (ids s) then (s, inr ST_IDINUSE)
   else
     let '(s1, ok) := enc_publish_chk s big tag id rem in
@@ -381,7 +388,8 @@ Definition wait_publish_response (s : sink) (id ack rem tag : N) (big : bool) : 
 
 (* wait_response(id, ack, pkt) *)
 Definition wait_response (s : sink) (id ack tag : N) : sink * (nat + N) :=
-  if negb (srem s =? 0) then (s, inr ST_ENCODE)
+  if stopped s then (s, inr ST_DISCONNECTED)
+  else if negb (srem s =? 0) then (s, inr ST_ENCODE)
   else if memN id (ids s) then (s, inr ST_IDINUSE)
   else
     let '(s1, ok) := enc_packet s tag id in
@@ -481,6 +489,9 @@ Definition proceed (s : sink) (x : task) : sink * tstate :=
 
 (* `if let Some(rx) = wait_readiness() { wait_window(rx).await } ; proceed`, from the window check on *)
 Definition window_then_proceed (s : sink) (x : task) : sink * tstate :=
+  (* once the queues have been cleared wait_readiness() parks nobody: it hands out a receiver whose sender is already
+     dropped, wait_window(rx) fails at once with Disconnected *)
+  if stopped s then (s, TDone ST_DISCONNECTED) else
   match wait_readiness s with
   | (s1, Some c) => (s1, TParked c)                                    (* first poll of rx: Pending *)
   | (s1, None) => proceed s1 x
@@ -888,13 +899,63 @@ Definition sink_op (s : sink) (o : op) : sink := settle (sink_step (set_wire s [
 
 Definition run_from (s : sink) (ops : list op) : sink := fold_left sink_op ops s.
 
-Fixpoint run_ops (s : sink) (ops : list (list N)) : list (list N) :=
+(* operation 18,t of the engines: a graceful close and, IN THE SAME TURN, a poll of task t -- the connection does not
+   settle in between, the poll sees the closing state (io = 1: is_closed() is still false, the queues have been
+   cleared).  This is what an executor does with a sender that was woken just before the teardown. *)
+Definition close_then_poll (s : sink) (t : N) : sink :=
+  (* when the io has stopped the connection's dispatcher shuts down and clears the queues once more
+     (Dispatcher::shutdown -> MqttShared::close): whatever a poll in the closing state parked is released *)
+  clear_queues (settle (sink_step (sink_step (set_wire s []) OClose) (OPoll t))).
+
+(* operation 19,t,k,id of the engines: the send future of task t (kind 1, 3 or 4) is handed to the EXECUTOR
+   (spawned) instead of being polled by the case: from then on it is polled whenever it has been woken, right after
+   the operation that woke it and before the connection settles.  Polling a task that has not been woken changes
+   nothing ([poll_task] on an open channel), so the model polls the spawned task after every operation.  At most one
+   task per case is spawned ([a] = its number); operations 2 / 3 on it are ignored. *)
+Definition auto_poll (a : option N) (s : sink) : sink :=
+  match a with Some t => poll_task s t | None => s end.
+
+Definition is_auto (a : option N) (t : N) : bool :=
+  match a with Some u => u =? t | None => false end.
+
+Definition spawn_ok (a : option N) (s : sink) (f : list N) : bool :=
+  match a, f with
+  | None, 19 :: t :: k :: _ =>
+    ((k =? 1) || (k =? 3) || (k =? 4)) && match find_task t (tasks s) with None => true | Some _ => false end
+  | _, _ => false
+  end.
+
+Definition engine_op (a : option N) (s : sink) (f : list N) : sink :=
+  let plain := settle (auto_poll a (sink_step (set_wire s []) (parse_op f))) in
+  match f with
+  | x :: t :: rest =>
+    if x =? 18 then
+      (* the spawned task is polled in the closing state as well, before the dispatcher's shutdown *)
+      clear_queues (settle (auto_poll a (sink_step (sink_step (set_wire s []) OClose) (OPoll t))))
+    else if x =? 19 then
+      match rest with
+      | k :: id :: _ =>
+        if spawn_ok a s f then settle (sink_step (set_wire s []) (OStart t k (U16 id) 0))
+        else settle (auto_poll a (set_wire s []))
+      | _ => plain
+      end
+    else if ((x =? 2) || (x =? 3)) && is_auto a t then settle (auto_poll a (set_wire s []))
+    else plain
+  | _ => plain
+  end.
+
+Definition next_auto (a : option N) (s : sink) (f : list N) : option N :=
+  if spawn_ok a s f then match f with _ :: t :: _ => Some t | _ => a end else a.
+
+Fixpoint run_ops_a (a : option N) (s : sink) (ops : list (list N)) : list (list N) :=
   match ops with
   | [] => []
   | f :: r =>
-    let s1 := sink_op s (parse_op f) in
-    observe s1 :: run_ops s1 r
+    let s1 := engine_op a s f in
+    observe s1 :: run_ops_a (next_auto a s f) s1 r
   end.
+
+Definition run_ops (s : sink) (ops : list (list N)) : list (list N) := run_ops_a None s ops.
 
 Definition run_sink (v : N) (c : list (list N)) : list (list N) :=
   match c with
